@@ -114,6 +114,16 @@ impl Spec {
         }
     }
     /// The top-level view this stack presents initially (union semantics for overlays).
+    pub fn has_emb(&self) -> bool {
+        match self {
+            Spec::Emb => true,
+            Spec::Mem { .. } | Spec::Phys { .. } => false,
+            Spec::Alt { inner, .. } => inner.has_emb(),
+            Spec::Ovl { layers } => layers.iter().any(|l| l.has_emb()),
+            Spec::OvlSub { base, .. } => base.has_emb(),
+        }
+    }
+
     /// initial contents of every leaf are a tree: no entry below a file, no path with two types
     pub fn self_consistent(&self) -> bool {
         match self {
